@@ -89,3 +89,19 @@ package server
 //@   ensures [kind-udp] result3 == nil && result1 == "udp" ==> typeis(result0, *net.UDPAddr)
 //@   ensures [failed] result3 != nil && !typeis(result0, *net.TCPAddr) && !typeis(result0, *net.UDPAddr) ==> result0 == nil && result2 == 0
 //@   modifies nothing
+//
+// Sensor token (property C18). The data directory's token file is seen through the ghost file
+// system (fexists, fcontent). tokpath(h) is the file's path.
+//@ spec tokpath(h *Honeytrap) string = pathjoin2(h.dataDir, "token")
+//
+// WithToken's option: a first start stores the freshly generated token and uses it; a restart uses
+// exactly what is stored; and whatever state an interrupted earlier start left the file in, the
+// token in use afterwards is well-formed (20 characters, as xid renders them).
+//@ func WithToken$1
+//@   check safety, frame
+//@   requires len(uid) == 20
+//@   ensures [first-start] !old(fexists[tokpath(h)]) && result == nil ==> h.token == uid
+//@   ensures [restart] old(fexists[tokpath(h)]) && len(old(fcontent[tokpath(h)])) == 20 && result == nil ==> h.token == old(fcontent[tokpath(h)]) && fcontent[tokpath(h)] == old(fcontent[tokpath(h)])
+//@   ensures [well-formed] result == nil ==> len(h.token) == 20
+//@   callpre ioutil.WriteFile: filename == tokpath(h) && str(data) == uid
+//@   modifies h.token, *uid, fexists, fcontent
